@@ -343,7 +343,8 @@ def refresh_flow(ctx, rep, rule):
                 after = [r for r in refs if r[1].order > cx.order and not r[1].has("self._deferred_user", True)]
                 rep.check(rule, q + ".refresh|final-refresh", bool(after), "time/boots refresh with the real keys follows",
                           "no unconditional refresh after the keys are installed", py.loc(mod, c))
-            guard = [r for r, rcx in f.returns() if rcx.order < 3]
+            first_ref = min([r[1].order for r in refs], default=10 ** 6)
+            guard = [r for r, rcx in f.returns() if rcx.order < first_ref and any("_to_refresh" in c[0] for c in rcx.conds)]
             rep.check(rule, q + ".refresh|v3-only", bool(guard), "returns early for non-v3 / nothing to refresh",
                       "no early return", py.loc(mod, f.node))
         ent = "__enter__" if mod == "sync_client" else "__aenter__"
